@@ -561,6 +561,29 @@ inline void format_type(const ST::format_spec &spec, ST::format_writer &out, con
 }
 static const char *const NEST_FMT[] = {"{}", "P{}", "{}Q", "P{}Q", "{}{}", "a{}b{}c", "{>12}|", "{<12}|", "{_*14}", "{&2}{&1}", "{}{&1}{}", "{{{}}}", "xx{.3}yy"};
 enum { N_NEST_FMT = sizeof NEST_FMT / sizeof *NEST_FMT };
+// a _stfmt formatter object used for several calls with different arguments
+static void run_formatter_reuse(Ctx &c, uint64_t i)
+{
+    static const char *const RF[] = {"{}", "a{}b", "{>6}|{}", "{x}{&1}", "{{{}}}"};
+    unsigned fi = (unsigned)(i % 5);
+    const char *f = RF[fi];
+    auto fo = ST::literals::operator""_stfmt(f, strlen(f));
+    for (int round = 0; round < 3; ++round) {
+        int a1 = 10 + round * 7, a2 = -3 - round;
+        std::string want = ref::render(ref::parse(f), {ref::Arg::integer(a1), ref::Arg::integer(a2)}).bytes;
+        ST::string got;
+        vf::Outcome oc = vf::guard([&] { got = fo(a1, a2); });
+        VF_COUNT("ops");
+        VF_COUNT("validated");
+        if (!oc.ok() || std::string(got.c_str(), got.size()) != want) {
+            c.fail("stfmt-object-reused:wrong-text", strf("call #%d of the object made by %s_stfmt with (%d, %d) gives %s, specified %s", round + 1, vf::vis(f).c_str(), a1,
+                                                          a2, oc.ok() ? vf::vis(std::string(got.c_str(), got.size())).c_str() : oc.str().c_str(), vf::vis(want).c_str()));
+            return;
+        }
+    }
+    c.nontrivial();
+}
+
 static void run_nested(Ctx &c, uint64_t i)
 {
     unsigned fi = (unsigned)vf::take(i, N_NEST_FMT), kind = (unsigned)vf::take(i, 4), sink = (unsigned)vf::take(i, 3);
@@ -588,7 +611,13 @@ static void run_nested(Ctx &c, uint64_t i)
         auto call = [&](auto &&...a) {
             if (sink == 0) return ST::format(fp, a...);
             if (sink == 1) return ST::format(ST::check_validity, fp, a...);
-            return ST::literals::operator""_stfmt(fp, f.size())(a...);
+            // the object a _stfmt literal yields is called twice: every call renders its own arguments from scratch
+            auto fo = ST::literals::operator""_stfmt(fp, f.size());
+            try {
+                (void)fo(a...);
+            } catch (...) {
+            }
+            return fo(a...);
         };
         switch (kind) {
         case 0: got = call(p1, p2); break;
@@ -1049,6 +1078,9 @@ static void build(vf::Plan &plan, const vf::Opts &o)
                    unsigned fi = (unsigned)vf::take(i, N_NEST_FMT), kind = (unsigned)vf::take(i, 4), sink = (unsigned)vf::take(i, 3);
                    return strf("format %s, argument list #%u, entry point #%u", vf::vis(NEST_FMT[fi]).c_str(), kind, sink);
                });
+
+    plan.stage("a _stfmt formatter object called three times with different arguments (5 format strings)", 5,
+               [](uint64_t i, Ctx &c) { run_formatter_reuse(c, i); }, [](uint64_t i) { return strf("format string #%u", (unsigned)i); });
 
     for (unsigned k = 0; k <= 3; ++k)
         plan.stage(strf("multi-field: %u field(s) from 10 x literals from 6 x 1..3 arguments", k), multi_count(k, 6),
